@@ -16,7 +16,7 @@ for f in sorted(glob.glob('/verif/seeded/*/meta.json')):
     own=m['property']
     cells=[]
     for k,v in cr.items():
-        cells.append(f"{k.split()[0]}: {short(v)}")
+        cells.append(f"{k.split()[0]}{' (thorough)' if 'thorough' in k else ''}: {short(v)}")
     needs=m['needs_to_manifest']
     rows.append((m['id'],own,needs,"; ".join(cells)))
 print("| seeded change | breaks | needs to manifest | checks (quick tier) |")
